@@ -11,8 +11,68 @@ import re._constants as sre_c
 from .. import astutil as A
 from ..fa import FA
 from ..loader import AnalysisError
+from .fresh import flow_nodes, attr_writes, at_of, reaches_avoiding, alternatives
 
 FR = "reference.FunctionReference"
+
+FIRST_CUTS = ("find", "index", "partition", "split")
+LAST_CUTS = ("rfind", "rindex", "rpartition", "rsplit")
+
+
+def _cut_calls(nodes, sep):
+    """(first, last): the calls among `nodes` that look for the FIRST / the LAST occurrence of `sep` in a string."""
+    first, last = [], []
+    for n in nodes:
+        if isinstance(n, ast.Call) and isinstance(n.func, ast.Attribute) and n.args and A.const_str(n.args[0]) == sep:
+            if n.func.attr in FIRST_CUTS:
+                first.append(n)
+            elif n.func.attr in LAST_CUTS:
+                last.append(n)
+    return first, last
+
+
+def _glue_literals(fa, max_len=2):
+    """Short literal pieces of the strings the function builds, whatever the spelling ('+', +=, format, f-string)."""
+    out = set()
+    for n in A.walk_body(fa.node):
+        if isinstance(n, (ast.BinOp, ast.JoinedStr, ast.Call)):
+            p = A.str_parts(n)
+            if p:
+                out |= {v for k, v in p if k == "lit" and 0 < len(v) <= max_len}
+        elif isinstance(n, ast.AugAssign) and isinstance(n.op, ast.Add):
+            p = A.str_parts(n.value)
+            if p:
+                out |= {v for k, v in p if k == "lit" and 0 < len(v) <= max_len}
+    return out
+
+
+def _flat_parts(e):
+    """A.str_parts with every '+' chain flattened, also when an operand is not itself a recognisable string
+    expression (a conditional prefix, a name): such operands stay ('expr', node) parts."""
+    if isinstance(e, ast.BinOp) and isinstance(e.op, ast.Add):
+        return A._merge(_flat_parts(e.left) + _flat_parts(e.right))
+    p = A.str_parts(e)
+    return p if p is not None else [("expr", e)]
+
+
+def _prefix_before_first(fa, call, sep):
+    """Is the cut call used to take what PRECEDES the first `sep`:  s[:s.find(sep)],  s.partition(sep)[0],
+    s.split(sep[, n])[0],  head, _, _ = s.partition(sep) ?"""
+    p = fa.pm.get(call)
+    nm = call.func.attr
+    if nm in ("find", "index"):
+        return isinstance(p, ast.Slice) and p.upper is call and (p.lower is None or (isinstance(p.lower, ast.Constant) and p.lower.value == 0)) and p.step is None
+    if nm in ("partition", "split"):
+        if isinstance(p, ast.Subscript) and p.value is call and isinstance(p.slice, ast.Constant) and p.slice.value == 0:
+            return True
+        if isinstance(p, ast.Assign) and p.value is call and len(p.targets) == 1 and isinstance(p.targets[0], (ast.Tuple, ast.List)) and p.targets[0].elts \
+                and isinstance(p.targets[0].elts[0], ast.Name):
+            # the first unpacked part is the one that is used afterwards; the others are not
+            head = p.targets[0].elts[0].id
+            rest = {e.id for e in p.targets[0].elts[1:] if isinstance(e, ast.Name)}
+            used = {n.id for n in A.walk_body(fa.node) if isinstance(n, ast.Name) and isinstance(n.ctx, ast.Load)}
+            return head in used and not (rest & used - {head})
+    return False
 
 
 def _group_class(tree, gid):
@@ -193,7 +253,20 @@ def _regex_parser(ck, R1, pq, ms, anchor=None):
         ck.ob(R1, pq.key(None, tag), ok, "%s (witness string %r parses into its parts)" % (tag, witness) if ok else
               "%s violated: for %r %s" % (tag, witness, why), pq.where(ms[0]))
     rets = pq.returns()
-    okg = bool(rets) and all(pq.xnorm(r.value).endswith(").groupdict()") and (".match(" in pq.xnorm(r.value) or ".fullmatch(" in pq.xnorm(r.value)) for r in rets)
+    def _is_groups(r):
+        """match.groupdict(), or the four named groups spelled out: {'cluster': m.group('cluster'), ...} / m['cluster']."""
+        x = pq.xnorm(r.value)
+        if x.endswith(").groupdict()") and (".match(" in x or ".fullmatch(" in x):
+            return True
+        v = pq.expand(r.value)
+        if isinstance(v, ast.Dict) and {A.const_str(k) for k in v.keys if k is not None} == {"cluster", "module", "function", "version"} and len(v.keys) == 4:
+            for k, val in zip(v.keys, v.values):
+                g = val.args[0] if isinstance(val, ast.Call) and A.call_attr(val) == "group" and len(val.args) == 1 else val.slice if isinstance(val, ast.Subscript) else None
+                if g is None or A.const_str(g) != A.const_str(k) or not (".match(" in A.norm(val) or ".fullmatch(" in A.norm(val)):
+                    return False
+            return True
+        return False
+    okg = bool(rets) and all(r.value is not None and _is_groups(r) for r in rets)
     ck.ob(R1, pq.key(None, "groupdict"), okg, "the parts are the named groups" if okg else "parse_qualified_name does not return match.groupdict()", pq.where())
     return shape
 
@@ -255,11 +328,17 @@ def check_cluster_name_validated(ck, R2, shape):
     d_cluster, d_module, d_version = shape if shape is not None else ("::", ":", "#")
     need = {d_module[0], d_version}
     ok = False
+    # a raise guarded by a test whose VALUE is computed from the name and from all the later delimiters (the
+    # test itself, or locals / comprehensions it is computed from: `bad = [c for c in '#:' if c in name]; if bad:`)
     for r in fa.stmts(ast.Raise):
         g = fa.enclosing(r, ast.If)
         while g is not None and not ok:
-            if need <= set("".join(A.strings_in(g.test))) and "name" in A.norm(g.test):
-                ok = True
+            if fa.nodes(g.test):
+                fl = [n for (n, a_) in flow_nodes(fa, g.test, fa.nodes(g.test)[0])]
+                chars = set("".join(n.value for n in fl if isinstance(n, ast.Constant) and isinstance(n.value, str)))
+                about_name = any((isinstance(n, ast.Name) and n.id == "name") or (isinstance(n, ast.Attribute) and n.attr == "name") for n in fl)
+                if need <= chars and about_name:
+                    ok = True
             g = fa.enclosing(g, ast.If)
     ck.ob(R2, fa.key(None, "cluster-name-validated"), ok,
           "a cluster name containing %s is refused" % sorted(need) if ok else
@@ -288,20 +367,49 @@ def check_stub_from_stored_state(ck, R3):
           "from_qualified_name no longer falls back to UnboundExternalMementoFunction", fq.where())
 
 
+def _pattern_literal(pq, e, depth=0):
+    """The pattern text an expression denotes: a literal, a local / module-level / class-level constant holding one,
+    or re.compile(<one of those>)."""
+    if depth > 5 or e is None:
+        return None
+    if A.const_str(e) is not None:
+        return e
+    if isinstance(e, ast.Call) and A.call_dotted(e) == "re.compile" and e.args:
+        return _pattern_literal(pq, e.args[0], depth + 1)
+    if isinstance(e, ast.Name):
+        if pq.df.is_local(e.id):
+            ds = [d for i in pq.nodes(e) for d in pq.df.reaching(i, e.id)]
+            if len(ds) == 1 and ds[0].kind == "assign":
+                return _pattern_literal(pq, ds[0].value, depth + 1)
+            return None
+        return _pattern_literal(pq, pq.fi.module.assigns.get(e.id), depth + 1)
+    if isinstance(e, ast.Attribute) and isinstance(e.value, ast.Name) and pq.fi.cls is not None and e.value.id in ("cls", "self", pq.fi.cls.node.name):
+        for st in pq.fi.cls.node.body:
+            if isinstance(st, ast.Assign) and any(isinstance(t, ast.Name) and t.id == e.attr for t in st.targets):
+                return _pattern_literal(pq, st.value, depth + 1)
+    return None
+
+
 def check_parser(ck, R1):
     pq = FA(ck, FR + ".parse_qualified_name")
-    ms = [c for c in pq.calls("match") if A.call_dotted(c) in ("re.match", "re.fullmatch")]
-    if len(ms) == 1 and A.const_str(ms[0].args[0]):
-        return _regex_parser(ck, R1, pq, ms)
-    # a pattern compiled once at module level: PATTERN = re.compile(<literal>) ... PATTERN.match(name)
+    # re.match(<pattern>, name) / re.fullmatch(...) / <compiled pattern>.match(name), the pattern being a literal or
+    # a constant defined once at module / class level
+    found = []
     for c in pq.calls("match") + pq.calls("fullmatch"):
-        recv = A.call_recv(c)
-        if isinstance(recv, ast.Name):
-            v = pq.fi.module.assigns.get(recv.id)
-            if isinstance(v, ast.Call) and A.call_dotted(v) == "re.compile" and v.args and A.const_str(v.args[0]):
-                pseudo = ast.Call(func=c.func, args=[v.args[0]] + list(c.args), keywords=[])
-                ast.copy_location(pseudo, c)
-                return _regex_parser(ck, R1, pq, [pseudo], anchor=c)
+        if A.call_dotted(c) in ("re.match", "re.fullmatch"):
+            lit = _pattern_literal(pq, c.args[0]) if c.args else None
+        else:
+            lit = _pattern_literal(pq, A.call_recv(c))
+        if lit is not None:
+            found.append((c, lit))
+    if len(found) == 1:
+        c, lit = found[0]
+        direct = A.call_dotted(c) in ("re.match", "re.fullmatch")
+        if direct and c.args[0] is lit:
+            return _regex_parser(ck, R1, pq, [c])
+        pseudo = ast.Call(func=c.func, args=[lit] + list(c.args[1:] if direct else c.args), keywords=[])
+        ast.copy_location(pseudo, c)
+        return _regex_parser(ck, R1, pq, [pseudo], anchor=c)
     return _partition_parser(ck, R1, pq)
 
 
@@ -322,50 +430,66 @@ def check(ck):
     if shape is not None:
         d_cluster, d_module, d_version = shape
         ini = FA(ck, FR + ".__init__")
-        lits = set(A.strings_in(ast.Module(body=[s for s in ini.node.body if not (isinstance(s, ast.Expr) and isinstance(s.value, ast.Constant))], type_ignores=[])))
+        # the delimiters the reference's qualified name is glued with: the short constants in the value flow of
+        # what is stored as self._qualified_name (through temporaries, +=, tuple assignments, helper results)
         concat = set()
-        for n in A.walk_body(ini.node):
-            if isinstance(n, (ast.BinOp, ast.AugAssign)) and isinstance(n.op, ast.Add):
-                for s in A.strings_in(n):
-                    if len(s) <= 2:
-                        concat.add(s)
-        qn = [s_ for s_ in ini.stmts(ast.Assign) if any(A.dotted(t) == "self._qualified_name" for t in s_.targets)]
-        if len(qn) == 1:
-            dq = ini.deps(qn[0].value)
-            concat = {x[7:-1] for x in dq if x.startswith("const:'") and len(x[7:-1]) <= 2}
+        qn = attr_writes(ini, "self._qualified_name")
+        for (st_, v_, _aug) in qn:
+            if ini.nodes(st_):
+                concat |= {x[7:-1] for x in ini.deps(v_, ini.nodes(st_)[0]) if x.startswith("const:'") and len(x[7:-1]) <= 2}
+        if not qn:
+            concat = _glue_literals(ini)
         ok = {d_cluster, d_module, d_version} <= concat
         ck.ob(R2, ini.key(None, "delimiters"), ok, "the reference is built with %s, the pattern's delimiters" % sorted(concat) if ok else
               "FunctionReference builds names with %s but the parser splits on %s" % (sorted(concat), [d_cluster, d_module, d_version]), ini.where())
         mi = FA(ck, "memento.MementoFunction.__init__")
-        concat2 = set()
-        for n in A.walk_body(mi.node):
-            if isinstance(n, (ast.BinOp, ast.AugAssign)) and isinstance(n.op, ast.Add):
-                for s in A.strings_in(n):
-                    if len(s) <= 2:
-                        concat2.add(s)
+        concat2 = _glue_literals(mi)
         ok2 = {d_cluster, d_module} <= concat2
         ck.ob(R2, mi.key(None, "delimiters"), ok2, "the unversioned name uses the same cluster and module delimiters" if ok2 else
               "MementoFunction builds its unversioned name with %s, the parser expects %s" % (sorted(concat2), [d_cluster, d_module]), mi.where())
-        mq = [s for s in mi.stmts(ast.AugAssign) if A.dotted(s.target) == "self.qualified_name_without_version" and "__module__" in A.norm(s.value)]
-        ok3 = len(mq) == 1 and A.norm(mq[0].value) == "fn.__module__ + %r + fn.__qualname__" % d_module
+        # the unversioned name ends with <fn>.__module__ + ':' + <fn>.__qualname__, and that write is the last one
+        def _mod_fn_tail(v_, at_, depth=0):
+            """Does every value the expression may hold END with <fn>.__module__ ':' <fn>.__qualname__ ?  (The end of
+            a string is the end of its last part: a local in last position stands for the values assigned to it.)"""
+            for (alt, a2) in alternatives(mi, v_, at_):
+                p_ = _flat_parts(alt)
+                if not p_:
+                    return False
+                if len(p_) >= 3:
+                    (k1, a1), (k2, a2_), (k3, a3) = p_[-3:]
+                    if k1 == "expr" and k2 == "lit" and k3 == "expr" and a2_ == d_module and isinstance(a1, ast.Attribute) and a1.attr == "__module__" \
+                            and isinstance(a3, ast.Attribute) and a3.attr == "__qualname__" and A.norm(a1.value) == A.norm(a3.value):
+                        continue
+                k_, last = p_[-1]
+                if k_ == "expr" and isinstance(last, ast.Name) and mi.df.is_local(last.id) and depth < 6 and not (len(p_) == 1 and last is alt):
+                    if _mod_fn_tail(last, a2, depth + 1):
+                        continue
+                return False
+            return True
+        writes = [(st_, v_, aug_) for (st_, v_, aug_) in attr_writes(mi, "self.qualified_name_without_version") if mi.nodes(st_)]
+        tails = [st_ for (st_, v_, aug_) in writes if _mod_fn_tail(v_, mi.nodes(st_)[0])]
+        tail_nodes = mi.nodes_all(tails)
+        ok3 = bool(tails) and mi.cfg.must_pass(tail_nodes, mi.cfg.exit)
+        if ok3:
+            after = mi.cfg.reach(tail_nodes, include_start=False)
+            ok3 = not any(i in after for (st_, v_, aug_) in writes if st_ not in tails for i in mi.nodes(st_))
         ck.ob(R2, mi.key(None, "module-function"), ok3, "unversioned name = module%sfunction qualname" % d_module if ok3 else
               "the unversioned name is no longer module + %r + qualname" % d_module, mi.where())
         rs = ck.repo.func("code_hash.resolve_to_symbolic_names").nested.get("resolve_to_symbol")
         # (when the nested helper was inlined into its only caller, the cut is looked for there)
         rfa = FA(ck, rs if rs is not None else ck.repo.func("code_hash.resolve_to_symbolic_names"))
-        # X = X[0:X.find('#')] ... for a local X holding the versioned qualified name
-        cut = []
-        for s_ in rfa.stmts(ast.Assign):
-            if len(s_.targets) == 1 and isinstance(s_.targets[0], ast.Name):
-                x_ = s_.targets[0].id
-                if "%s.find(%r)" % (x_, d_version) in A.norm(s_.value) and "rfind" not in A.norm(s_.value) and any(
-                        isinstance(n_, ast.Subscript) and A.norm(n_.value) == x_ and isinstance(n_.slice, ast.Slice) and n_.slice.upper is not None
-                        and A.norm(n_.slice.upper) == "%s.find(%r)" % (x_, d_version) for n_ in ast.walk(s_.value)):
-                    cut.append(s_)
-        ck.ob(R2, rfa.key(None, "cut-first-hash"), len(cut) == 1, "the symbolic name is cut at the first %r" % d_version if len(cut) == 1 else
+        # the versioned qualified name of a dependency is reduced to what precedes its FIRST version delimiter
+        firsts, lasts = _cut_calls(list(A.walk_body(rfa.node)), d_version)
+        on_name = [c for c in firsts if rfa.nodes(c) and "qualified_name" in {n.attr for (n, a_) in flow_nodes(rfa, c.func.value, rfa.nodes(c)[0]) if isinstance(n, ast.Attribute)}]
+        okc = bool(on_name) and not lasts and all(_prefix_before_first(rfa, c, d_version) for c in firsts)
+        ck.ob(R2, rfa.key(None, "cut-first-hash"), okc, "the symbolic name is cut at the first %r" % d_version if okc else
               "the symbolic dependency name is not cut at the first %r (a version containing it would leak into the name)" % d_version, rfa.where())
-        wc = [s for s in ini.stmts(ast.Assign) if any(A.dotted(t) == "self._qualified_name_without_cluster" for t in s.targets)]
-        ok4 = len(wc) == 1 and "call:find" in ini.deps(wc[0].value) and ("const:%r" % d_cluster) in ini.deps(wc[0].value)
+        # what is stored as the name without its cluster prefix is cut at the FIRST cluster delimiter
+        wc = [(st_, v_) for (st_, v_, _aug) in attr_writes(ini, "self._qualified_name_without_cluster") if ini.nodes(st_)]
+        ok4 = bool(wc)
+        for (st_, v_) in wc:
+            f_, l_ = _cut_calls([n for (n, a_) in flow_nodes(ini, v_, ini.nodes(st_)[0])], d_cluster)
+            ok4 = ok4 and bool(f_) and not l_
         ck.ob(R2, ini.key(None, "without-cluster"), ok4, "the cluster prefix is cut at the first %r" % d_cluster if ok4 else
               "qualified_name_without_cluster is not cut at the first %r" % d_cluster, ini.where())
         # the cluster delimiter is looked for in the name BEFORE the version is appended: the
@@ -397,14 +521,30 @@ def check(ck):
     ff = FA(ck, FR + "._find_function")
     may = set()
     frcls = ck.repo.cls(FR)
+    # the lookup: the call of _find_function — or, when that private helper was inlined into from_qualified_name
+    # (FA falls back on the host), the import walk itself; its failures are those raised inside the guarded region
+    host_mode = ff.fi is fq.fi
+    fcalls = fq.calls("_find_function")
+    if not fcalls and host_mode:
+        fcalls = fq.calls("import_module")
+    fcall = fq.one(fcalls, "_find_function call")
+    region = [t_ for t_ in fq.stmts(ast.Try) if any(fq.inside(fcall, b) for b in t_.body)]
+
+    def in_region(node):
+        return any(fq.inside(node, b) for t_ in region for b in t_.body)
+
     lookup_fns = [ff]
     for c in ff.calls():
         # helpers of the same class the lookup delegates to (one level)
+        if host_mode and not in_region(c):
+            continue
         if isinstance(c.func, ast.Attribute) and A.norm(c.func.value) in ("FunctionReference", "cls", "self") and c.func.attr in frcls.methods \
                 and c.func.attr not in ("_find_function", "from_qualified_name"):
             lookup_fns.append(FA(ck, frcls.methods[c.func.attr]))
     for f in lookup_fns:
         for r in f.stmts(ast.Raise):
+            if host_mode and f is ff and not in_region(r):
+                continue
             if isinstance(r.exc, ast.Call):
                 may.add(A.call_attr(r.exc))
         for c in f.calls():
@@ -434,11 +574,11 @@ def check(ck):
         for r in f.returns():
             if r.value is not None:
                 d |= f.deps(r.value)
-        has_cmp = any(isinstance(n, ast.Compare) and "version" in A.norm(n) and isinstance(n.ops[0], ast.NotEq) for n in A.walk_body(f.node))
+        has_cmp = any(isinstance(n, ast.Compare) and "version" in A.norm(n) and isinstance(n.ops[0], (ast.NotEq, ast.Eq)) for n in A.walk_body(f.node))
         return "call:import_module" in d and has_cmp
     helpers_fresh = {f.fi.name for f in lookup_fns[1:] if fresh_resolver(f)}
     for r in ff.returns():
-        if r.value is None:
+        if r.value is None or (host_mode and not in_region(r)):
             continue
         names = [n.id for n in ast.walk(r.value) if isinstance(n, ast.Name) and ff.df.is_local(n.id) and n.id not in ff.fi.params]
         bad = []
@@ -457,10 +597,18 @@ def check(ck):
                   "the function returned by the lookup can come from `%s` instead of a fresh import walk and version check: after the callee is "
                   "edited or removed, stored references to its old version keep resolving to the stale function instead of becoming external"
                   % A.short(bad[0][1].value, 60), ff.where(bad[0][1].stmt))
-    vc = [n for f in lookup_fns for n in A.walk_body(f.node) if isinstance(n, ast.Compare) and isinstance(n.ops[0], ast.NotEq) and "version()" in A.norm(n.left)]
+    def _version_compares(f):
+        """Comparisons (== / !=) one side of which is the looked-up function's current version()."""
+        out = []
+        for n in A.walk_body(f.node):
+            if isinstance(n, ast.Compare) and len(n.ops) == 1 and isinstance(n.ops[0], (ast.Eq, ast.NotEq)) and f.nodes(n):
+                sides = [f.xnorm(n.left, f.nodes(n)[0]), f.xnorm(n.comparators[0], f.nodes(n)[0])]
+                if any(".version()" in x_ for x_ in sides):
+                    out.append(n)
+        return out
+    vc = [n for f in lookup_fns for n in _version_compares(f)]
     ck.ob(R3, ff.key(None, "version-checked"), bool(vc), "the looked-up function's current version is compared with the stored one" if vc else
           "the lookup no longer compares memento_fn.version() with the stored version", ff.where())
-    fcall = fq.one(fq.calls("_find_function"), "_find_function call")
     handlers = []
     n = fcall
     while n is not None:
@@ -478,14 +626,13 @@ def check(ck):
     ck.ob(R3, fq.key(fcall, "lookup-failures-caught"), not esc and len(may) >= 3,
           "everything the lookup may raise (%s) falls back to an external reference" % sorted(may) if not esc else
           "%s raised while looking the function up escapes from_qualified_name: a removed / renamed dependency makes stored metadata unreadable" % sorted(esc), fq.where(fcall))
-    # the fallback is taken when the handler fires
+    # the fallback is taken when the handler fires: from every handler of the lookup, each way out of the
+    # function (return or raise) passes the construction of the unbound external stub — whether the handler
+    # sets a flag that is tested afterwards, falls through to the stub, or builds it itself
     ub = fq.calls("UnboundExternalMementoFunction")
-    okf = len(ub) == 1
-    if okf:
-        gi = fq.enclosing(ub[0], ast.If)
-        flag = gi.test.id if gi is not None and isinstance(gi.test, ast.Name) else None
-        hbodies = [st for t_ in fq.stmts(ast.Try) if any(fq.inside(fcall, b) for b in t_.body) for h in t_.handlers for st in h.body]
-        okf = flag is not None and any(isinstance(st, ast.Assign) and A.norm(st.targets[0]) == flag and A.norm(st.value) == "True" for st in hbodies)
+    stub_nodes = fq.nodes_all(ub)
+    hnodes = [i for t_ in fq.stmts(ast.Try) if any(fq.inside(fcall, b) for b in t_.body) for h in t_.handlers for i in fq.cfg.nodes_of(h)]
+    okf = bool(stub_nodes) and bool(hnodes) and not any(reaches_avoiding(fq, h, stub_nodes, [fq.cfg.exit, fq.cfg.raise_exit]) for h in hnodes)
     ck.ob(R3, fq.key(None, "fallback"), okf, "a failed lookup constructs the unbound external stub" if okf else
           "from_qualified_name no longer falls back to UnboundExternalMementoFunction", fq.where())
     # (b) asserts on the fallback path under the call-site bindings
@@ -495,19 +642,39 @@ def check(ck):
         # nullability of a parse result comes from the pattern: `module` and `function` are
         # mandatory groups (shape check above), `cluster` and `version` optional
         at_call = fq.nodes(call)[0]
-        for k in call.keywords:
-            v = k.value
-            if isinstance(v, ast.Name):
-                xv = fq.xnorm(v, at_call)
-                mandatory = shape is not None and xv.startswith("FunctionReference.parse_qualified_name(") and xv.endswith(("['module']", "['function']"))
-                binding[k.arg] = NOTNONE if mandatory else MAYBE
-            elif isinstance(v, ast.IfExp) and "is not None" in A.norm(v.test):
-                binding[k.arg] = NOTNONE
-            elif isinstance(v, ast.Constant):
-                binding[k.arg] = NONE if v.value is None else NOTNONE
-            else:
-                binding[k.arg] = MAYBE
+
+        def nullability(v):
+            """NotNone / None / Maybe for the (expanded) argument expression."""
+            if isinstance(v, ast.Constant):
+                return NONE if v.value is None else NOTNONE
+            if isinstance(v, (ast.List, ast.Tuple, ast.Dict, ast.Set, ast.JoinedStr, ast.ListComp, ast.DictComp, ast.SetComp)):
+                return NOTNONE
+            if isinstance(v, ast.IfExp):
+                # `x if x is not None else <d>` / `<d> if x is None else x`: x on its arm is not None
+                arms = []
+                for (arm, pos) in ((v.body, True), (v.orelse, False)):
+                    t_ = v.test
+                    if isinstance(t_, ast.Compare) and len(t_.ops) == 1 and A.is_none(t_.comparators[0]) and A.norm(t_.left) == A.norm(arm) \
+                            and ((isinstance(t_.ops[0], ast.IsNot) and pos) or (isinstance(t_.ops[0], ast.Is) and not pos)):
+                        arms.append(NOTNONE)
+                    else:
+                        arms.append(nullability(arm))
+                return arms[0] if arms[0] == arms[1] else MAYBE
+            if isinstance(v, ast.BoolOp) and isinstance(v.op, ast.Or):
+                return NOTNONE if nullability(v.values[-1]) == NOTNONE else MAYBE
+            xv = A.norm(v)
+            if shape is not None and xv.startswith("FunctionReference.parse_qualified_name(") and xv.endswith(("['module']", "['function']")):
+                return NOTNONE
+            return MAYBE
+
         ue = ck.repo.func("external.UnboundExternalMementoFunction.__init__")
+        ue_params = [a.arg for a in ue.node.args.args if a.arg != "self"]
+        if any(isinstance(a_, ast.Starred) for a_ in call.args) or any(k.arg is None for k in call.keywords):
+            raise AnalysisError("from_qualified_name builds the external stub with */** arguments: bindings cannot be told")
+        for i_, a_ in enumerate(call.args[:len(ue_params)]):
+            binding[ue_params[i_]] = nullability(fq.expand(a_, at_call))
+        for k in call.keywords:
+            binding[k.arg] = nullability(fq.expand(k.value, at_call))
         env = {}
         defaults = ue.node.args.defaults
         params = [a.arg for a in ue.node.args.args]
@@ -547,8 +714,31 @@ def check(ck):
             _check_asserts(ck, R3, fri, env2, "reference-of-stub")
             # the stub's cluster_name property must tolerate being read while the reference is built
             prop = ck.repo.func("external.ExternalMementoFunctionBase.cluster_name")
-            reads_ref = any(isinstance(n, ast.Attribute) and A.norm(n) == "self._fn_reference.cluster_name" for n in A.walk_body(prop.node))
-            guarded = any(isinstance(i, ast.If) and "self._fn_reference is None" in A.norm(i.test) for i in A.walk_body(prop.node))
+            pfa = FA(ck, prop)
+            reads = [n for n in A.walk_body(prop.node) if isinstance(n, ast.Attribute) and A.norm(n) == "self._fn_reference.cluster_name"]
+            reads_ref = bool(reads)
+
+            def _ref_present(lit):
+                return lit in (("self._fn_reference is None", False), ("self._fn_reference", True))
+
+            def _guarded(n):
+                """The read happens only where the reference exists: on every path condition of its statement, or
+                inside the arm of a conditional expression / `and` that tests it."""
+                x = n
+                while x is not None and not isinstance(x, ast.stmt):
+                    par = pfa.pm.get(x)
+                    if isinstance(par, ast.IfExp) and x is not par.test and pfa.nodes(par):
+                        if any(_ref_present(l_) for l_ in pfa._atoms(par.test, pfa.nodes(par)[0], x is par.body)):
+                            return True
+                    if isinstance(par, ast.BoolOp) and isinstance(par.op, ast.And) and pfa.nodes(par):
+                        before = par.values[:par.values.index(x)] if x in par.values else []
+                        if any(_ref_present(l_) for v_ in before for l_ in pfa._atoms(v_, pfa.nodes(par)[0], True)):
+                            return True
+                    x = par
+                conds = pfa.conditions(pfa.stmt_of(n)) if pfa.nodes(n) else set()
+                return conds is not None and all(any(_ref_present(l_) for l_ in c_) for c_ in conds)
+
+            guarded = all(_guarded(n) for n in reads)
             fr_reads = any(A.norm(n) == "memento_fn.cluster_name" for n in A.walk_body(fri.node) if isinstance(n, ast.Attribute))
             needs_guard = fr_reads and env2.get("cluster_name") != NOTNONE
             okp = (not needs_guard) or (not reads_ref) or guarded
@@ -569,21 +759,32 @@ def check(ck):
                           "can no longer be decoded, so the entry stops being served / listings raise" % A.short(g.test, 60), fx.where(r_))
     da = FA(ck, "serialization.MementoCodec.decode_arg")
     rz = [r_ for r_ in da.stmts(ast.Raise) if isinstance(r_.exc, ast.Call) and A.call_attr(r_.exc) == "FunctionNotFoundError"]
-    okd = len(rz) == 1 and da.enclosing(rz[0], ast.If) is not None
+    # the refusal is reached exactly when the freshly decoded reference has no function object: every path
+    # condition of the raise says `<decoded reference>.memento_fn is None`, and says nothing else about the reference
+    okd = len(rz) == 1
     if okd:
-        xt_ = da.xnorm(da.enclosing(rz[0], ast.If).test)
-        okd = xt_.startswith("cls.decode_fn_reference(") and xt_.endswith(").memento_fn is None")
+        conds = da.conditions(rz[0])
+        if conds is None:
+            raise AnalysisError("decode_arg: too many paths to the FunctionNotFoundError refusal")
+
+        def no_fn(lit):
+            return lit[1] and lit[0].startswith("cls.decode_fn_reference(") and lit[0].endswith(").memento_fn is None")
+
+        okd = bool(conds) and all(any(no_fn(l_) for l_ in c_) and not any("decode_fn_reference(" in l_[0] and not no_fn(l_) for l_ in c_) for c_ in conds)
     ck.ob(R3, da.key(None, "function-argument-decoding"), okd, "a function-valued argument is refused only when no function object (not even a stub) exists" if okd else
           "decode_arg refuses function references under another condition than `memento_fn is None`", da.where())
     # (c) metadata source treats unresolvable functions as absent; memory backend likewise
     gm = FA(ck, "storage_base.DataSourceMetadataSource.get_mementos")
-    rm = gm.one(gm.calls("_read_memento"), "_read_memento call")
+    # (the read of the stored memento: the private reader, or the decoder itself where the reader was inlined)
+    rm = gm.one(gm.calls("_read_memento") or gm.calls("decode_memento"), "_read_memento call")
     hs = []
     n = rm
     while n is not None:
         p = gm.pm.get(n)
         if isinstance(p, ast.Try) and any(gm.inside(rm, b) for b in p.body):
-            hs += [A.norm(h.type) for h in p.handlers if h.type is not None]
+            for h in p.handlers:
+                if h.type is not None:
+                    hs += [A.norm(t) for t in (h.type.elts if isinstance(h.type, ast.Tuple) else [h.type])]
         n = p
     okh = "FunctionNotFoundError" in hs
     ck.ob(R3, gm.key(rm, "unresolvable-is-absent"), okh, "a memento whose function cannot be mapped counts as absent" if okh else
